@@ -261,14 +261,14 @@ def ulp_boundary_grid(sc, seed=0):
     return problems
 
 
-def native_sequence(seed=0, linear=False, k_edit=3.0, container="set", assumptions=False, scale=None, cse=None, magnitude=False):
+def native_sequence(seed=0, linear=False, k_edit=3.0, container="set", assumptions=False, scale=None, cse=None, magnitude=False, redundant=False):
     """STATEFUL bounded check: one filter instance with two sensors of DIFFERENT reading dimension, driven through a sequence of
     Jacobian evaluations at different points (different dt), predictions (dt of the point, 0, another dt) and alternating
     sensor updates (near and far readings).  Every result is compared with the exact oracle at ITS OWN inputs, so state kept
     between calls (caches, remembered thresholds, reused buffers) shows up.  Returns (problems, scenario)."""
     import numpy as np
 
-    sc = scenarios.Scenario(3, 1, 2, [1, 2], seed=seed, linear=linear, assumptions=assumptions, magnitude=magnitude)
+    sc = scenarios.Scenario(3, 1, 2, [1, 2], seed=seed, linear=linear, assumptions=assumptions, magnitude=magnitude, redundant=redundant)
     if scale:
         # very precise sensors on a very small prior (values far below 1e-6): supplied noise must be used as supplied
         sc.sensor_noises = {kx: {r: v * scale for r, v in m.items()} for kx, m in sc.sensor_noises.items()}
